@@ -103,6 +103,17 @@ func (e *Env) call(x *ECall) Val {
 	case "same":
 		a, b := e.unify(arg(0), arg(1))
 		return g.boolVal(eq(a.S, b.S))
+	case "proj":
+		// proj(k, F(args)): the k-th result of a multi-result (pure / heappure) function used in a specification
+		kv := arg(0)
+		if kv.Big == nil {
+			e.fail("proj expects a constant index")
+		}
+		t := e.tr(x.Args[1])
+		if t.Sort != "Tuple" || int(kv.Big.Int64()) >= len(t.Tuple) {
+			e.fail("proj: the second argument is not a call with that many results")
+		}
+		return t.Tuple[kv.Big.Int64()]
 	case "sameArray":
 		// two slices are views of the same backing array (they may alias)
 		a, b := arg(0), arg(1)
@@ -638,14 +649,8 @@ func (e *Env) pureCall(fn *ssa.Function, args []Val, rt types.Type) (Val, bool) 
 		if !g.heapStable() {
 			e.fail("heap-dependent pure function %s used in the contract of a function that may modify the heap", fullName(fn))
 		}
-		uf := heapPureUF(fn)
-		var sorts, as []string
-		for _, a := range args {
-			sorts = append(sorts, a.Sort)
-			as = append(as, a.S)
-		}
-		g.declFun(uf, sorts, g.sortOf(rt))
-		return Val{S: app(uf, as...), Sort: g.sortOf(rt), GT: rt}, true
+		_, r := g.heapPureResults(fn, args)
+		return r, true
 	}
 	if fc == nil || fc.Opts["pure"] == "" {
 		return Val{}, false
@@ -956,7 +961,18 @@ func (e *Env) eachAppended(body Expr) Val {
 	st := dest.GT.Underlying().(*types.Slice)
 	key := "E|" + typeKey(st.Elem())
 	g.ensureKey(key, g.sortOf(st.Elem()))
-	lastOfDest := Val{S: app("select", app("select", e.heapGet(key), app("s_arr", dest.S)), app("sl.idx", dest.S, g.isub(app("s_len", dest.S), g.idxLit(1)))), Sort: g.sortOf(st.Elem()), GT: st.Elem()}
+	// element k of slice s in the current heap: leaf elements come from the two-level element map, struct elements
+	// are read field by field through the element pointer (that is how composite literals are stored)
+	_, elemIsStruct := st.Elem().Underlying().(*types.Struct)
+	elemAt := func(s string, idx string) Val {
+		if elemIsStruct {
+			ptr := fmt.Sprintf("(mk-ptr (obj (s_arr %s)) (elem (path (s_arr %s)) (sl.idx %s %s)))", s, s, s, idx)
+			pl := g.placeOf(Val{S: ptr, Sort: "Ptr", GT: types.NewPointer(st.Elem())})
+			return g.loadAt(pl, st.Elem(), e.loadHeap())
+		}
+		return Val{S: app("select", app("select", e.heapGet(key), app("s_arr", s)), app("sl.idx", s, idx)), Sort: g.sortOf(st.Elem()), GT: st.Elem()}
+	}
+	lastOfDest := elemAt(dest.S, g.isub(app("s_len", dest.S), g.idxLit(1)))
 	destNonEmpty := g.icmp(">", app("s_len", dest.S), g.idxLit(0), true)
 	arg := f.val(e.appendArg)
 	n := constSliceLen(e.appendArg)
@@ -965,7 +981,7 @@ func (e *Env) eachAppended(body Expr) Val {
 		// literal elements: read them from the argument array
 		var elems []Val
 		for k := 0; k < n; k++ {
-			elems = append(elems, Val{S: app("select", app("select", e.heapGet(key), app("s_arr", arg.S)), app("sl.idx", arg.S, g.idxLit(int64(k)))), Sort: g.sortOf(st.Elem()), GT: st.Elem()})
+			elems = append(elems, elemAt(arg.S, g.idxLit(int64(k))))
 		}
 		for k := 0; k < n; k++ {
 			c := e.child()
@@ -991,9 +1007,7 @@ func (e *Env) eachAppended(body Expr) Val {
 		at = func(i string) Val { return Val{S: app("gstr.at", arg.S, i), Sort: g.sortOf(tByte), GT: st.Elem()} }
 	} else {
 		length = app("s_len", arg.S)
-		at = func(i string) Val {
-			return Val{S: app("select", app("select", e.heapGet(key), app("s_arr", arg.S)), app("sl.idx", arg.S, i)), Sort: g.sortOf(st.Elem()), GT: st.Elem()}
-		}
+		at = func(i string) Val { return elemAt(arg.S, i) }
 	}
 	c := e.child()
 	c.inQuant++
